@@ -533,6 +533,11 @@ class Dispatcher(actor.RallyActor):
     def receiveMsg_BenchmarkFailure(self, msg, sender):
         self.send(self.start_sender, msg)
 
+    def receiveMsg_ChildActorExited(self, msg, sender):
+        # The node mechanics are our children but only the requesting mechanic actor knows the status of the cluster. Let it decide
+        # whether this is expected (the engine is stopping) or a failure (e.g. a remote Rally daemon has gone away).
+        self.send(self.start_sender, msg)
+
     def receiveMsg_PoisonMessage(self, msg, sender):
         self.send(self.start_sender, actor.BenchmarkFailure(msg.details))
 
